@@ -449,6 +449,34 @@ Proof.
     do 2 eexists. split; [reflexivity|]. split; [lia|auto].
 Qed.
 
+Lemma url_arg_ok n d :
+  exists ty m, url_arg n (d ++ [0]) = Some (ty, m) /\ n <= m <= n + len d /\ (ty = TURL \/ ty = TBadURL).
+Proof.
+  unfold url_arg. rewrite peekz_sent_0. cbn [option_bind].
+  destruct ((hd0 d =? 34) || (hd0 d =? 39)) eqn:Q.
+  - destruct d as [|c3 d3]; [discriminate Q|].
+    destruct (consume_string_ok c3 d3) as (ty & m & -> & Hm & Ht). cbn [option_bind fst snd].
+    rewrite skipz_app_sent by lia.
+    destruct (tt_eqb ty TBadString).
+    + destruct (badurl_loop_ok (skipz m (c3 :: d3)) O) as (r & -> & Hr); [lens; lia|]. cbn [option_bind].
+      rewrite len_skipz in Hr by lia. do 2 eexists. split; [reflexivity|]. split; [lens; lia|auto].
+    + destruct (url_end_ok (n + m) (skipz m (c3 :: d3))) as (ty' & m' & -> & Hm' & Ht').
+      rewrite len_skipz in Hm' by lia. do 2 eexists. split; [reflexivity|]. split; [lens; lia|auto].
+  - destruct (url_loop_ok d O) as (b & m & -> & Hm); [lens; lia|]. cbn [option_bind fst snd].
+    rewrite skipz_app_sent by lia.
+    destruct b.
+    + destruct (url_end_ok (n + m) (skipz m d)) as (ty' & m' & -> & Hm' & Ht').
+      rewrite len_skipz in Hm' by lia. do 2 eexists. split; [reflexivity|]. split; [lens; lia|auto].
+    + destruct (consume_whitespace_ok (skipz m d)) as (ws & -> & Hws). cbn [option_bind].
+      rewrite len_skipz in Hws by lia.
+      destruct (0 <? ws) eqn:Ews.
+      * rewrite skipz_app_sent by lia.
+        destruct (url_end_ok (n + m + 1) (skipz (m + 1) d)) as (ty' & m' & -> & Hm' & Ht').
+        rewrite len_skipz in Hm' by lia. do 2 eexists. split; [reflexivity|]. split; [lens; lia|auto].
+      * destruct (badurl_loop_ok (skipz m d) O) as (r & -> & Hr); [lens; lia|]. cbn [option_bind].
+        rewrite len_skipz in Hr by lia. do 2 eexists. split; [reflexivity|]. split; [lens; lia|auto].
+Qed.
+
 Lemma consume_identlike_ok d : oktok d (consume_identlike (d ++ [0])).
 Proof.
   unfold consume_identlike. destruct (consume_ident_token_ok d) as (n & -> & Hn). cbn [option_bind].
@@ -460,33 +488,9 @@ Proof.
   destruct (negb (is_url_name _)); [tok_ok|]. cbn [tl].
   destruct (scan_while_ok is_ws d1 eq_refl) as (w & -> & Hw). cbn [option_bind].
   rewrite skipz_app_sent by lia.
-  pose proof (len_skipz w d1 Hw) as Hl3. set (d3 := skipz w d1) in *. clearbody d3.
-  rewrite peekz_sent_0. cbn [option_bind].
-  destruct ((hd0 d3 =? 34) || (hd0 d3 =? 39)) eqn:Q.
-  - destruct d3 as [|c3 d3]; [discriminate Q|].
-    destruct (consume_string_ok c3 d3) as (ty & m & -> & Hm & Ht). cbn [option_bind fst snd].
-    rewrite skipz_app_sent by lia.
-    destruct (tt_eqb ty TBadString).
-    + destruct (badurl_loop_ok (skipz m (c3 :: d3)) O) as (r & -> & Hr); [lens; lia|]. cbn [option_bind].
-      rewrite len_skipz in Hr by lia. tok_ok.
-    + destruct (url_end_ok (n + 1 + w + m) (skipz m (c3 :: d3))) as (ty' & m' & -> & Hm' & Ht').
-      rewrite len_skipz in Hm' by lia.
-      eexists; split; [reflexivity|]. right. split; [destruct Ht' as [-> | ->]; reflexivity|cbn [snd]; lens; lia].
-  - destruct (url_loop_ok d3 O) as (b & m & -> & Hm); [lens; lia|]. cbn [option_bind fst snd].
-    rewrite skipz_app_sent by lia.
-    destruct b.
-    + destruct (url_end_ok (n + 1 + w + m) (skipz m d3)) as (ty' & m' & -> & Hm' & Ht').
-      rewrite len_skipz in Hm' by lia.
-      eexists; split; [reflexivity|]. right. split; [destruct Ht' as [-> | ->]; reflexivity|cbn [snd]; lens; lia].
-    + destruct (consume_whitespace_ok (skipz m d3)) as (ws & -> & Hws). cbn [option_bind].
-      rewrite len_skipz in Hws by lia.
-      destruct (0 <? ws) eqn:Ews.
-      * rewrite skipz_app_sent by lia.
-        destruct (url_end_ok (n + 1 + w + m + 1) (skipz (m + 1) d3)) as (ty' & m' & -> & Hm' & Ht').
-        rewrite len_skipz in Hm' by lia.
-        eexists; split; [reflexivity|]. right. split; [destruct Ht' as [-> | ->]; reflexivity|cbn [snd]; lens; lia].
-      * destruct (badurl_loop_ok (skipz m d3) O) as (r & -> & Hr); [lens; lia|]. cbn [option_bind].
-        rewrite len_skipz in Hr by lia. tok_ok.
+  destruct (url_arg_ok (n + 1 + w) (skipz w d1)) as (ty' & m' & -> & Hm' & Ht').
+  rewrite len_skipz in Hm' by lia.
+  eexists; split; [reflexivity|]. right. split; [destruct Ht' as [-> | ->]; reflexivity|cbn [snd]; lens; lia].
 Qed.
 
 (* --- Next's switch ------------------------------------------------------------------------------ *)
